@@ -113,3 +113,40 @@ STRESS_MIX_T = {"name": "stress-mix", "cmd": "stress --seed {seed} --rounds 200 
 for p, q, t in [("C15", [STRESS_FINAL_Q], [STRESS_FINAL_T]), ("C16", [STRESS_MIX_Q], [STRESS_MIX_T]), ("C05", [STRESS_MIX_Q], [STRESS_MIX_T])]:
     PLANS[p]["direct"] = {"quick": q, "thorough": t}
     PLANS[p]["assumptions"] = PLANS[p]["assumptions"] + ["free-running stress rounds (no scheduler) are judged only at their quiescent end state, by the same identities (TraceFinal.tla)"]
+
+# ---- specification instances per property group (MC_inst.tla)
+def inst(cfg, text, **kw):
+    d = {"module": "MC_inst", "cfg": cfg, "constants": text}
+    d.update(kw)
+    return d
+
+I_EVICT = inst("MC_evict", "2 callers: put w2; put w2; put w3; put w9(too heavy) || upsert weight; delete. MaxWeight 4, mixed estimates, fine grain")
+I_EVICT_COLD = inst("MC_evict_cold", "same programs, incoming key colder than the residents")
+I_SHUT = inst("MC_shut", "put; shutdown; put; get || put; delete. QSize 1, fine grain")
+I_READS = inst("MC_reads", "put; await; get; get_ref; get || get; delete; get. Buffer size 1, consumer running")
+I_TTL = inst("MC_ttl", "put ttl 1; upsert ttl 2; get || upsert remove-ttl; get_ref. Sweeper and clock (horizon 3), 2 shards", timeout=1500)
+I_GEN = inst("MC_gen", "one caller draws 3 operations from an alphabet of 9 (every write variant) over 2 keys; sweeper, clock", timeout=900)
+I_D12 = inst("MC_ttl_D12", "MC_ttl with invariant 'no D12 verdict': must be violated (the model reproduces D12)", expect_violation="NotD12")
+I_D13 = inst("MC_ttl_D13", "MC_ttl with invariant 'no D13 verdict': must be violated (the model reproduces D13)", expect_violation="NotD13")
+I_D14 = inst("MC_ttl_D14", "MC_ttl with invariant 'no D14 verdict': must be violated (the model reproduces D14)", expect_violation="NotD14")
+I_D5 = inst("MC_ttl_D5", "MC_ttl with invariant 'no D5 verdict': must be violated (the model reproduces D5)", expect_violation="NotD5")
+
+MC_BY_PROP = {
+    "C01": ([MC_L1, I_EVICT], [I_EVICT_COLD, I_GEN]),
+    "C02": ([MC_L1, I_READS], [I_GEN]),
+    "C03": ([I_READS, I_SHUT], [I_TTL, I_D12]),
+    "C04": ([MC_L1, I_READS], [I_GEN]),
+    "C05": ([MC_L1, I_EVICT], [MC_L1_NOFIX, I_GEN]),
+    "C06": ([I_EVICT, I_EVICT_COLD], [I_GEN]),
+    "C07": ([MC_L1, I_EVICT], [MC_L1_NOFIX, I_GEN]),
+    "C08": ([I_EVICT, I_READS], [I_TTL, I_D5, I_GEN]),
+    "C09": ([I_READS], [I_TTL, I_GEN]),
+    "C10": ([I_SHUT], [I_TTL, I_D12, I_D13, I_D14]),
+    "C11": ([MC_L1, I_SHUT], [MC_L1_NOFIX, I_GEN]),
+    "C13": ([I_SHUT], [I_GEN]),
+    "C15": ([I_READS], [I_GEN]),
+    "C16": ([I_READS, I_EVICT], [I_GEN]),
+    "C17": ([I_EVICT, I_SHUT], [I_GEN]),
+}
+for p, (q, t) in MC_BY_PROP.items():
+    PLANS[p]["mc"] = {"quick": q, "thorough": q + t}
